@@ -161,9 +161,81 @@ def _analyse_expr(ctx, body, e, params, upmap, res, depth):
             res["keys"].append((pl[1] + "[*]", "Asc" if first_param == 1 else "Desc"))
             return
     if e[0] == "phi":
+        if _loop_lexicographic(ctx, body, e, params, upmap, res):
+            return
         res["malformed"].append("comparator with data-dependent branches is not a recognised lexicographic form")
         return
     res["malformed"].append("unrecognised comparator expression: %s" % S.show(e, body)[:120])
+
+
+def _loop_lexicographic(ctx, body, e, params, upmap, res):
+    """for (x, y) in a.iter().zip(b.iter()) { let o = x.cmp(y); if o != Equal { return o } }  Equal"""
+    alts = U.flatten_phi(e)
+    cmps = [a for a in alts if a[0] == "call" and a[1].endswith("Ord::cmp")]
+    eqs = [a for a in alts if a[0] == "agg" and a[2].endswith("Ordering::Equal")]
+    if len(cmps) != 1 or len(eqs) != 1 or len(alts) != 2:
+        return False
+    c = cmps[0]
+
+    def elem_side(x):
+        # (side, zip call) of `(next(zipiter) as Some).0.<side>`
+        x = S.strip_refs(x)
+        if x[0] != "field":
+            return None
+        side = str(x[2])
+        y = S.strip_refs(x[1])
+        while isinstance(y, tuple) and y and y[0] in ("field", "down"):
+            y = S.strip_refs(y[1])
+        if not (isinstance(y, tuple) and y and y[0] == "call" and y[1].endswith("Iterator::next")):
+            return None
+        src, stages = U.chain(y[2][0])
+        zs = [s for s in stages if s[0] == "zip"]
+        if not zs or [s[0] for s in stages if s[0] not in ("zip", "into_iter", "iter")]:
+            return None
+        return side, zs[0], y
+    sa, sb = elem_side(c[2][0]), elem_side(c[2][1])
+    if sa is None or sb is None or sa[0] == sb[0] or sa[0] not in ("0", "1") or sb[0] not in ("0", "1"):
+        return False
+    z = sa[1]
+    left, right = z[2][2][0], z[1][0]
+    pl, pr = _param_proj(left, params, upmap), _param_proj(right, params, upmap)
+    if pl is None or pr is None or pl[0] == pr[0] or pl[1] != pr[1]:
+        res["malformed"].append("zip does not pair the same projection of the two arguments: %s / %s" % (pl, pr))
+        return True
+    # the element comparison is returned only when it differs from Equal; Equal is returned only once the zip is exhausted
+    sy = ctx.sym(body)
+    cfg = ctx.cfg(body)
+    ret_cmp, ret_eq = [], []
+    for bi, si, st in body.iter_stmts():
+        if st["k"] == "assign" and st["place"]["l"] == 0 and not st["place"]["p"] and not body.blocks[bi]["cleanup"]:
+            v = sy.rvalue(st["rv"])
+            (ret_cmp if (v[0] == "call" and v[1].endswith("Ord::cmp")) else ret_eq).append(bi)
+    guarded = False
+    for bi, t in body.iter_terms():
+        if t["k"] != "switch":
+            continue
+        d = S.strip_refs(sy.operand(t["discr"]))
+        bt = U.bool_switch_targets(t)
+        ne_side = None
+        if d[0] == "call" and d[1].endswith(("PartialEq::ne", "PartialEq::eq")) and bt and \
+                any(isinstance(x, tuple) and x and x[0] == "agg" and x[2].endswith("Ordering::Equal") for x in S.walk(d)) and \
+                any(isinstance(x, tuple) and x and x[0] == "call" and x[1].endswith("Ord::cmp") for x in S.walk(d)):
+            ne_side = bt[1] if d[1].endswith("ne") else bt[0]
+        elif d[0] == "discr" and S.strip_refs(d[1])[0] == "call" and S.strip_refs(d[1])[1].endswith("Ord::cmp"):
+            tg = dict((v, x) for v, x in t["targets"])
+            if 0 in tg and all(cfg.dominates(t["otherwise"], r) or t["otherwise"] == r for r in ret_cmp) and \
+                    not any(cfg.dominates(tg[0], r) or tg[0] == r for r in ret_cmp):
+                guarded = True
+        if ne_side is not None and ret_cmp and all(cfg.dominates(ne_side, r) or ne_side == r for r in ret_cmp):
+            guarded = True
+    if not guarded:
+        res["malformed"].append("the element comparison is returned without testing that it differs from Ordering::Equal")
+    nxt = [bi for bi, t in body.calls() if (t.get("cn") or "").endswith("Iterator::next")]
+    if ret_eq and nxt and not all(cfg.dominates(nxt[0], r) and not cfg.in_loop(r) for r in ret_eq):
+        res["malformed"].append("Ordering::Equal is returned before the sequences are exhausted")
+    first_param = pl[0] if sa[0] == "0" else pr[0]
+    res["keys"].append((pl[1] + "[*]", "Asc" if first_param == 1 else "Desc"))
+    return True
 
 
 def analyse_closure_noargs(ctx, cb, upmap, depth):
